@@ -90,7 +90,11 @@ func runWorkers(x *infra, in input) hlib.Case {
 		for k := 0; k < in.NewNames; k++ {
 			name := fmt.Sprintf("svc %d/f%d.new-%d %s", r.Intn(7), f, k, hlib.Pick(r, []string{"lat ency", "req/s", "x", "a.b_c", "été"}))
 			var tags gostatsd.Tags
-			for j := r.Intn(3); j > 0; j-- {
+			nt := r.Intn(3)
+			if r.Chance(1, 20) {
+				nt = hlib.Pick(r, []int{9, 10, 11, 15})
+			}
+			for j := nt; j > 0; j-- {
 				tags = append(tags, hlib.Pick(r, plainTags))
 			}
 			mk := func(t gostatsd.MetricType, v float64, sv string) *gostatsd.Metric {
